@@ -467,11 +467,26 @@ class Evaluator:
                 parts.append(Unknown(unparse(v)))
         return SStr(parts)
 
+    def _elements(self, elts: t.List[ast.expr], st: State) -> t.List[t.Any]:
+        out: t.List[t.Any] = []
+        for x in elts:
+            if isinstance(x, ast.Starred):
+                v = self.eval(x.value, st)
+                if isinstance(v, list):
+                    out.extend(v)
+                elif isinstance(v, STuple):
+                    out.extend(v.items)
+                else:
+                    raise Unsupported(f"{self.func.qual}:{x.lineno}: starred element {unparse(x)} of unknown length")
+            else:
+                out.append(self.eval(x, st))
+        return out
+
     def e_Tuple(self, e: ast.Tuple, st: State) -> t.Any:
-        return STuple([self.eval(x, st) for x in e.elts])
+        return STuple(self._elements(e.elts, st))
 
     def e_List(self, e: ast.List, st: State) -> t.Any:
-        return [self.eval(x, st) for x in e.elts]
+        return self._elements(e.elts, st)
 
     def e_Dict(self, e: ast.Dict, st: State) -> t.Any:
         ok, v = self.fold(e)
@@ -726,6 +741,8 @@ class Evaluator:
             sub.env[var] = typed_value(f"{it.path}[*]", it.typ[1])
             elem = self.eval(e.elt, sub)
             return ("repeat", it.path, Lin.atom(("len", it.path)), elem, var)
+        if isinstance(it, STuple):
+            it = list(it.items)
         if isinstance(it, list):
             out = []
             for item in it:
